@@ -66,7 +66,10 @@ ElimFrom(M, r, c, piv) ==
                                IN  Primitive(Eager([j \in 1..NCols(M) |-> pp * S[i][j] - qq * S[r + 1][j]]))])
               IN  ElimFrom(R, r + 1, c + 1, Append(piv, c))
 
-Reduce(A) == ElimFrom(A, 0, 1, <<>>)
+\* rows are made primitive first (same null space, same rank): every value the elimination forms is
+\* then bounded by a minor of the ROW-PRIMITIVE matrix (the bound callers have to respect)
+PrimRows(A) == Eager([i \in 1..Len(A) |-> Primitive(A[i])])
+Reduce(A) == ElimFrom(PrimRows(A), 0, 1, <<>>)
 RankOf(E) == Len(E.piv)
 Rank(A) == RankOf(Reduce(A))
 Nullity(A) == NCols(A) - Rank(A)
@@ -151,6 +154,18 @@ IsRayBySearch(A, B) ==
     /\ S # {}
     /\ \E g \in S : \A x \in S : \E m \in (-B)..B : x = [i \in 1..Len(g) |-> m * g[i]]
 PosBox(A, B) == {x \in Box(NCols(A), 1, B) : IsNullVec(A, x)}
+
+(* ---------------------------------------------------------------------------------------- *)
+(* Exact zero test of u.v for LARGE entries (anything a 32-bit integer holds) without ever     *)
+(* forming the sum: u.v = 0 iff u.v = 0 modulo five primes just below sqrt(2^31).              *)
+(* |u.v| <= n * 2^62 < 46301*46307*46309*46327*46337 (about 2.1*10^23) for n <= 10^4, so the   *)
+(* residues decide; (a % p)*(b % p) + acc < 46337^2 + 46337 < 2^31, so nothing overflows.      *)
+CRTPrimes == {46301, 46307, 46309, 46327, 46337}
+RECURSIVE DotModFrom(_, _, _, _, _)
+DotModFrom(u, v, p, i, acc) ==
+    IF i > Len(u) THEN acc ELSE DotModFrom(u, v, p, i + 1, (acc + (u[i] % p) * (v[i] % p)) % p)
+DotIsZeroBig(u, v) == \A p \in CRTPrimes : DotModFrom(u, v, p, 1, 0) = 0
+IsNullVecBig(A, x) == \A i \in 1..Len(A) : DotIsZeroBig(A[i], x)
 
 (* vectors of rationals <<n,d>> *)
 QDot(u, xq) == QSumSeq([i \in 1..Len(u) |-> QMul(Q(u[i]), xq[i])])
